@@ -179,6 +179,7 @@ class Explorer:
         crash_points: int | None = 0,
         switch_points: int | None = 0,
         switch_cap: int | None = 400,
+        focus_cap: int = 96,
     ):
         self.repo = os.path.abspath(repo)
         self.jobs = jobs
@@ -198,6 +199,7 @@ class Explorer:
         self.crash_points = crash_points
         self.switch_points = switch_points
         self.switch_cap = switch_cap
+        self.focus_cap = focus_cap
         self.focus = changed_lines(self.repo)
         self.workdir = tempfile.mkdtemp(prefix="exponax-dst-")
         global XLA_CACHE_DIR
@@ -312,7 +314,7 @@ class Explorer:
         lines = sorted(line_ops, key=lambda ln: hashlib.sha256(f"{self.seed_base}-{ln}".encode()).hexdigest())
         n_probe = len(lines) if self.crash_points is None else min(self.crash_points, len(lines))
         # change-aware prioritisation: executed lines inside uncommitted hunks of the audited tree come first
-        focus = [ln for ln in lines if ln in set(self.focus["lines"])][:240]
+        focus = [ln for ln in lines if ln in set(self.focus["lines"])][: self.focus_cap]
         rest = [ln for ln in lines if ln not in set(focus)][:n_probe]
         self.crash_point_plan = {"distinct_source_lines_executed": len(lines), "lines_probed": len(focus) + len(rest), "of_which_in_uncommitted_hunks": len(focus)}
         for j, ln in enumerate(focus + rest):
@@ -336,8 +338,11 @@ class Explorer:
             if not neigh:
                 continue
             others = neigh if ln in set(focus) else [rng.choice(neigh)]
-            if len(others) > 12:
-                others = rng.sample(others, 12)
+            if len(others) > 6:
+                others = rng.sample(others, 6)
+            # ... and callers from *other* configurations, which share only library-wide state with the parked one
+            pool_all = [k for k in self.keys if not self.ops[k]["atomic"]]
+            others = list(others) + [rng.choice(pool_all) for _ in range(3 if ln in set(focus) else 1)]
             for other in others:
                 if sw >= (self.switch_cap or 10**9):
                     break
